@@ -322,6 +322,11 @@ theorem run_schedule :
     Gen.TsneRun.gainAdd = (1, 5) ∧ Gen.TsneRun.gainMul = (4, 5) ∧ Gen.TsneRun.gainMin = (1, 100) ∧
     Gen.TsneRun.initScale = (1, 10000) := by decide
 
+/-- the update rule of `run` as written is the specified one (the rule against which the correspondence run checks
+    every observed iteration of the real `run`) -/
+theorem run_update_rule_is_spec {K : Type} [Field K] [LinearOrder K] (N D : Nat) (dC : Array K) (s : OptState K) :
+    updateStep N D dC s = updateStepWith Sched.spec N D dC s := rfl
+
 /-- the stages of `run`, in source order: input stage (centre, normalise, similarities, symmetrise, normalise —
     dense and sparse —, exaggerate, initialise), then per iteration gradient → gains → floor → velocity → position →
     centring → end of exaggeration → momentum switch -/
